@@ -19,10 +19,27 @@ import (
 	"golang.org/x/tools/go/ssa/ssautil"
 )
 
-const (
-	repoDir  = "/repo"
-	verifDir = "/verif"
-)
+const repoDir = "/repo"
+
+// verifDir is where harnesses, known findings, replays and evidence live: $VERIF_DIR if set, else the
+// parent of the directory holding this executable when that has a harness/ directory (so that a copy or
+// snapshot of /verif uses its own files), else /verif.
+var verifDir = "/verif"
+
+func locateVerifDir() {
+	if d := os.Getenv("VERIF_DIR"); d != "" {
+		verifDir = d
+		return
+	}
+	if exe, err := os.Executable(); err == nil {
+		if exe, err = filepath.EvalSymlinks(exe); err == nil {
+			d := filepath.Dir(filepath.Dir(exe))
+			if st, err := os.Stat(filepath.Join(d, "harness")); err == nil && st.IsDir() {
+				verifDir = d
+			}
+		}
+	}
+}
 
 type harnessInfo struct {
 	fn       *ssa.Function
@@ -47,6 +64,8 @@ type harnessResult struct {
 	forks        int
 	queries      int
 	unknowns     int
+	retries      int // "unknown" answers re-asked on a fresh solver process
+	retryOK      int // ... of which decided there
 	solverErrors int
 	solverTime   time.Duration
 	wall         time.Duration
@@ -226,10 +245,15 @@ func runHarness(prog *ssa.Program, spkgs []*ssa.Package, h *harnessInfo, tier in
 		reached: map[string]int{}, covers: map[string]bool{}, errTypeCache: map[string]types.Type{}, witness: map[string]*Model{}}
 	sh.cond = sync.NewCond(&sh.mu)
 	mk := func() *Engine {
-		sol, err := newSolver(tb, solverBin, h.timeout, nil)
+		soft := h.timeout
+		if soft > 20000 {
+			soft = 20000
+		}
+		sol, err := newSolver(tb, solverBin, soft, nil)
 		if err != nil {
 			fatal(2, "cannot start solver: %v", err)
 		}
+		sol.fullMs = h.timeout
 		return &Engine{Shared: sh, prog: prog, tb: tb, sol: sol, ia: h.mode == "ia", harness: h.name, hprop: h.props[0], tier: tier,
 			maxPaths: h.maxPaths, maxSteps: 400000}
 	}
@@ -244,6 +268,8 @@ func runHarness(prog *ssa.Program, spkgs []*ssa.Package, h *harnessInfo, tier in
 				sh.workers--
 				sh.queries += e.sol.queries
 				sh.unknowns += e.sol.unknowns
+				sh.retries += e.sol.retries
+				sh.retryOK += e.sol.retryOK
 				sh.solverErrors += e.sol.errors
 				sh.solverTime += e.sol.dur
 				sh.mu.Unlock()
@@ -302,7 +328,7 @@ func runHarness(prog *ssa.Program, spkgs []*ssa.Package, h *harnessInfo, tier in
 	go worker(e)
 	wg.Wait()
 	r := &harnessResult{info: h, obligs: sh.obligs, trivial: sh.trivial, paths: sh.paths, instrs: int(sh.instrs), forks: sh.forks,
-		queries: sh.queries, unknowns: sh.unknowns, solverErrors: sh.solverErrors, solverTime: sh.solverTime, wall: time.Since(t0),
+		queries: sh.queries, unknowns: sh.unknowns, retries: sh.retries, retryOK: sh.retryOK, solverErrors: sh.solverErrors, solverTime: sh.solverTime, wall: time.Since(t0),
 		status: sh.statusCount, inconclusive: sh.inconclusive, reached: sh.reached, covers: sh.covers, witness: sh.witness}
 	for f := range sh.funcsSeen {
 		r.funcs = append(r.funcs, f)
@@ -340,6 +366,7 @@ func loadKnown() map[string]knownFinding {
 }
 
 func main() {
+	locateVerifDir()
 	if len(os.Args) < 2 {
 		fatal(2, "usage: vcheck run <Cxx> [--tier quick|thorough] [--harness name] | list | replay <file>")
 	}
